@@ -181,7 +181,9 @@ def signature(a: dict) -> dict:
     r = run_action(a)
     if hasattr(r, "status") and hasattr(r, "out"):
         # a file front end: what the caller sees is the status, the failure and the file that was written
-        return {"ok": not r.failed, "err_kind": r.exc or "", "err_text": norm_text((r.exc_text or "")[:300]), "blocks": [[0, (r.out or b"").hex()]], "labels": [], "symbols": []}
+        # (a failure is reported through the log: the lines of it that carry the location or the word error belong to what the caller sees)
+        told = [ln for ln in (r.log or "").split("\n") if r.failed and (".s:" in ln or "rror" in ln or " at" in ln)]
+        return {"ok": not r.failed, "err_kind": r.exc or "", "err_text": norm_text(((r.exc_text or "") + "|" + "|".join(told))[:600]), "blocks": [[0, (r.out or b"").hex()]], "labels": [], "symbols": []}
     return sig_of(r)
 
 
